@@ -93,4 +93,40 @@ def resolve (cells : Nat → Rat) : List ROp → List Op
   | .evolve a :: r => .evolve (deref cells a) :: resolve cells r
   | .mutate c x :: r => resolve (setCell cells c x) r
 
+/-! ### A callback that raises before doing anything
+
+`raises e`: the callback of queue entry `e` raises as soon as it is called.  `evolve_until` has popped
+the entry and bridged the interval to it by then; the exception leaves the loop. -/
+
+/-- a run together with the entry whose callback raised, if one did -/
+structure RunX where
+  run : Run
+  raisedAt : Option Entry
+deriving Repr, DecidableEq
+
+def loopX (kids : Entry → List (Rat × Nat)) (raises : Entry → Bool) (T : Rat) : Nat → Sys → RunX
+  | 0, s => ⟨⟨.outOfFuel, s, []⟩, none⟩
+  | fuel + 1, s =>
+    match s.queue with
+    | e :: rest =>
+      if e.time < T then
+        let a := advance { s with queue := rest } (e.time - s.t)
+        if raises e then ⟨⟨.outOfFuel, a.1, a.2 ++ [Event.fire e a.1.t]⟩, some e⟩
+        else
+          let r := loopX kids raises T fuel (addAll a.1 (kids e))
+          ⟨{ r.run with trace := a.2 ++ Event.fire e a.1.t :: r.run.trace }, r.raisedAt⟩
+      else
+        let a := advance s (T - s.t)
+        ⟨⟨.ok, a.1, a.2⟩, none⟩
+    | [] =>
+      let a := advance s (T - s.t)
+      ⟨⟨.ok, a.1, a.2⟩, none⟩
+
+def evolveUntilX (kids : Entry → List (Rat × Nat)) (raises : Entry → Bool) (fuel : Nat) (s : Sys) (T : Rat) : RunX :=
+  if T < s.t then ⟨⟨.backwards, s, []⟩, none⟩ else loopX kids raises T fuel s
+
+/-- the callbacks `kids`, except that the one of entry `e` does nothing (it raised at once) -/
+def kidsExcept (kids : Entry → List (Rat × Nat)) (e : Entry) : Entry → List (Rat × Nat) :=
+  fun x => if x = e then [] else kids x
+
 end HcipyVerif.Scheduler
